@@ -23,7 +23,8 @@ from zoo import meshes as Z
 PROPERTY = "C15"
 
 # "save_user": Save_Iter(info) with the documented optional dict, the SAME dict object updated and handed over at every call (load-loop idiom)
-OPS = ["solve_a", "solve_b", "save", "save_user", "folder0", "folderA", "folderB", "set0", "setlast", "get0", "res0", "replacemesh", "saveload"]
+# "reset0": Set_Iter(0) with NO query afterwards (the queries of "set0" recompute lazily held fields and can mask a state that was not restored)
+OPS = ["solve_a", "solve_b", "save", "save_user", "reset0", "folder0", "folderA", "folderB", "set0", "setlast", "get0", "res0", "replacemesh", "saveload"]
 PREFIXES = {"init": ["save", "solve_a", "save"],  # iteration 0 = the initial state, saved before any solve; iteration 1 solved
             "mem": ["solve_a", "save"], "disk": ["folderA", "solve_a", "save"], "two": ["solve_a", "save", "solve_b", "save"],
             "twomesh": ["solve_a", "save", "replacemesh", "solve_b", "save"],
@@ -492,9 +493,12 @@ def _run(case, scn, tmp):
         return out
 
     user_info = {}
+    pending = [None]  # index of the iteration restored last, as long as nothing changed the state since
 
     def apply(op):
         nonlocal key, simu, nrestore
+        if op in ("solve_a", "solve_b", "replacemesh", "dyn", "saveload"):
+            pending[0] = None
         kk = dict(k0, ops="+".join(done))
         out = []
         if op in ("solve_a", "solve_b"):
@@ -508,6 +512,26 @@ def _run(case, scn, tmp):
                 simu.Save_Iter(user_info)
             snaps.append({"fields": scn.fields(simu), "named": scn.named(simu), "stored": copy.deepcopy(simu.Get_results(-1)),
                           "coords": np.array(simu.mesh.coord), "Nn": simu.mesh.Nn, "mesh": key})
+            if pending[0] is not None:
+                # a restored iteration saved again without any solve in between: the new entry stores the state of the restored one
+                src, new = snaps[pending[0]], snaps[-1]
+                skip = ("timeIter", "indexMesh", "step", "Niter", "convIter", "newtonIter", "list_norm_r")
+                a = {k: v for k, v in _strip(new["stored"]).items() if k not in skip}
+                b = {k: v for k, v in _strip(src["stored"]).items() if k not in skip}
+                def same(x, y):
+                    # an empty history field (nothing computed yet) and an all-zero one are the same state
+                    if isinstance(x, np.ndarray) and isinstance(y, np.ndarray) and (x.size == 0 or y.size == 0):
+                        return not np.any(x) and not np.any(y)
+                    return _eq(x, y)
+
+                bad = [k for k in b if k in a and not same(a[k], b[k])]  # (a scheme switched in between may add keys: speed, accel)
+                if bad:
+                    out.append(viol("resave_differs", f"after {done}: iteration {pending[0]} was restored and saved again without a solve, but the new stored "
+                                                      f"iteration differs from it (keys {sorted(map(str, bad))[:4]})", field=str(sorted(map(str, bad))[:1]), **kk))
+                for name in src["named"]:
+                    if not _eq(new["named"].get(name), src["named"][name], 1e-10):
+                        out.append(viol("resave_differs", f"after {done}: result {name} of the re-saved iteration differs from the restored iteration {pending[0]}",
+                                        field=name, **kk))
         elif op == "dyn":
             scn.to_dynamic(simu)
         elif op.startswith("folder"):
@@ -518,6 +542,7 @@ def _run(case, scn, tmp):
             i = 0 if op == "set0" else len(snaps) - 1
             simu.Set_Iter(0 if op == "set0" else -1)  # the last iteration is addressed the default way (-1)
             nrestore += 1
+            pending[0] = i
             s = snaps[i]
             key = s["mesh"]
             if simu.mesh.Nn != s["Nn"] or not _eq(np.array(simu.mesh.coord), s["coords"]):
@@ -534,6 +559,12 @@ def _run(case, scn, tmp):
                     a, b = np.asarray(nm.get(name)), s["named"][name]
                     out.append(viol("restore_internal", f"after {done}: Set_Iter({i}): result {name} = {np.ravel(a)[:3]}... but {np.ravel(b)[:3]}... when iteration {i} was saved",
                                     result=name, **kk))
+        elif op == "reset0":
+            if snaps:
+                simu.Set_Iter(0)
+                nrestore += 1
+                pending[0] = 0
+                key = snaps[0]["mesh"]
         elif op == "get0":
             if snaps:
                 simu.Get_results(0)
